@@ -5,8 +5,8 @@
   Lungo/Proofs/{Order,CompareLaws}.lean; this file only states the property theorems.
 
   Hypotheses.  `cmp_refl`, `cmp_swap` and `cmp_rank` hold for ALL values of the model type `V`.
-  Transitivity, congruence and numeric exactness need ONE well-formedness fact, `V.i64Ok` (Lungo/Spec/I64Ok.lean): every
-  `int64` payload occurring in the value lies in the int64 range (`V.wf` implies it; a Go `int64`
+  Transitivity, congruence and numeric exactness need ONE well-formedness fact, `V.i64Ok`
+  (Lungo/Spec/I64Ok.lean): every `int64` payload occurring in the value lies in the int64 range (`V.wf` implies it; a Go `int64`
   always satisfies it).  Reason: the model type stores an `i64` payload as an unbounded `Int`, and
   for an out-of-range payload the range checks of `compareInt64ToFloat64` ("double ≥ 2^63 ⇒ less",
   "double < −2^63 ⇒ greater") are simply wrong.  `cmp_trans_needs_i64Ok`, `cmp_congr_needs_i64Ok`
@@ -141,17 +141,8 @@ theorem cmp_laws (a b c : V) (oa : a.i64Ok = true) (ob : b.i64Ok = true) (oc : c
 
 /-- `≤` is transitive. -/
 theorem cmp_trans (a b c : V) (oa : a.i64Ok = true) (ob : b.i64Ok = true) (oc : c.i64Ok = true) :
-    V.cmp a b ≠ .gt → V.cmp b c ≠ .gt → V.cmp a c ≠ .gt := by
-  intro h1 h2
-  have L := V.cmp_at a b c oa ob oc
-  cases hab : V.cmp a b with
-  | gt => exact absurd hab h1
-  | eq => rw [L.congr_l hab]; exact h2
-  | lt =>
-    cases hbc : V.cmp b c with
-    | gt => exact absurd hbc h2
-    | lt => rw [L.lt_trans hab hbc]; decide
-    | eq => rw [← L.congr_r hbc, hab]; decide
+    V.cmp a b ≠ .gt → V.cmp b c ≠ .gt → V.cmp a c ≠ .gt :=
+  (V.cmp_at a b c oa ob oc).le_trans
 
 /-- `<` is transitive. -/
 theorem cmp_lt_trans (a b c : V) (oa : a.i64Ok = true) (ob : b.i64Ok = true) (oc : c.i64Ok = true) :
